@@ -59,6 +59,10 @@ def gen_plan(rng, tier, config, opts):
         # negatives: uncompressed bytes -> decode -> compressed -> decode -> uncompressed (the two must keep apart - also
         # when the executor process has compressed points of another pairing-friendly curve before)
         F = 32
+        if rng.chance(0.7):
+            # ... in the same plan (a finding must not depend on what earlier plans left in the executor process)
+            other = 'SM9_P256' if curve == 'BN_P256' else 'BN_P256'
+            lines += ['CURVE ' + other, 'ENC 7 ep 1 rand', 'DEC 7 ep', 'CURVE ' + curve, 'ENC 7 bn 0 rand']
         for _ in range(rng.randint(1, 3)):
             pts = special_g1_points(curve)
             if not pts:
